@@ -197,7 +197,7 @@ fn optimizer_vs_consensus(prog: &[u8], envsel: u8) -> Option<Value> {
         let mut a = clvmr::Allocator::new();
         let p = match clvmr::serde::node_from_bytes(&mut a, &prog) { Ok(p) => p, Err(_) => return None };
         let mut tag = 0u8;
-        let env = match envsel { 0 => build_tree(&mut a, 4, &mut tag), 1 => comb(&mut a, 20, true), 2 => comb(&mut a, 20, false), _ => build_tree(&mut a, 17, &mut tag) };
+        let env = match envsel { 0 => build_tree(&mut a, 4, &mut tag), 1 => comb(&mut a, 20, true), 2 => comb(&mut a, 20, false), 3 => build_tree(&mut a, 17, &mut tag), 4 => comb(&mut a, 80, true), _ => comb(&mut a, 80, false) };
         let runner = Rc::new(DefaultProgramRunner::new());
         let orig = runner.run_program(&mut a, p, env, None).ok().and_then(|r| clvmr::serde::node_to_bytes(&a, r.1).ok())?;
         let opt = match optimize_sexp(&mut a, p, runner.clone()) { Ok(o) => o, Err(e) => return Some((Some(orig), None, format!("optimizer rejected: {:?}", e))) };
@@ -233,6 +233,8 @@ fn optimizer_programs() -> Vec<Vec<u8>> {
     for b in [0x80u8, 0x81, 0xc0, 0xff] { paths.push(vec![0x81, b]); }
     for hi in [0x00u8, 0x01, 0x7f, 0x80, 0xfe, 0xff] { for lo in [0x00u8, 0x01, 0x7f, 0x80, 0xff] { if hi != 0 || lo != 0 { paths.push(vec![0x82, hi, lo]); } } }
     paths.push(vec![0x83, 0x00, 0xff, 0xff]); paths.push(vec![0x83, 0xff, 0xff, 0xff]); paths.push(vec![0x84, 0x00, 0x00, 0x00, 0x07]);
+    // machine-word boundaries: 7-, 8- and 9-byte path atoms, top bit set and clear
+    for w in [7usize, 8, 9] { for first in [0xffu8, 0x80, 0x7f, 0x01] { let mut p = vec![0x80 + w as u8, first]; for _ in 1..w { p.push(0xff); } paths.push(p); } }
     for p in &paths {
         for op in [5u8, 6u8] { let mut x = vec![0xff, op, 0xff]; x.extend(p); x.push(0x80); v.push(x); }
         // (a (q . P) 1)
@@ -402,6 +404,7 @@ fn disasm_inputs() -> Vec<Vec<u8>> {
     for c in [b'"', b'\'', b'\\', b' ', b'#', b'(', b')', b'a', 0x00u8, 0x7f, 0x80] {
         atoms.push(vec![b'a', c, b'b']); atoms.push(vec![c, b'a', b'b']); atoms.push(vec![b'a', b'b', c]); atoms.push(vec![c, c, c]);
     }
+    for c in [b'\t', b'\n', b'\r', 0x0cu8, 0x0b, 0x1b, 0x7f] { atoms.push(vec![b'a', c, b'b']); atoms.push(vec![b'a', b'b', c]); atoms.push(vec![c, b'a', b'b', b'c']); atoms.push(vec![b'h', b'e', b'l', b'l', b'o', c, b'w']); }
     atoms.push(b"hello world".to_vec()); atoms.push(vec![0x13, 0xd6, 0x1f, 0x00]); atoms.push(vec![0xff; 5]); atoms.push(vec![0, 0, 0, 1]);
     let mut out = vec![];
     for at in &atoms {
@@ -715,7 +718,8 @@ fn chk_symbols(source: &str, functions: &[(&str, &str)], complete: bool) -> Opti
 
 // ---- C13: a synthesised function's entry (lambda, let): calling the code found through the entry with arguments laid out
 // as the recorded argument list says gives the value the source gives
-fn chk_symbol_call(source: &str, name_prefix: &str, bindings: &[(&str, i64)], expected: &str) -> Option<Value> {
+fn chk_symbol_call(source: &str, name_prefix: &str, bindings: &[(&str, i64)], expected: &str) -> Option<Value> { chk_symbol_call_opt(source, name_prefix, bindings, expected, false) }
+fn chk_symbol_call_opt(source: &str, name_prefix: &str, bindings: &[(&str, i64)], expected: &str, optimize: bool) -> Option<Value> {
     use chialisp::classic::clvm_tools::binutils::assemble;
     use chialisp::classic::clvm_tools::stages::stage_0::{DefaultProgramRunner, TRunProgram};
     use chialisp::compiler::clvm::convert_to_clvm_rs;
@@ -745,6 +749,7 @@ fn chk_symbol_call(source: &str, name_prefix: &str, bindings: &[(&str, i64)], ex
         let mut a = clvmr::Allocator::new();
         let runner = Rc::new(DefaultProgramRunner::new());
         let opts: Rc<dyn CompilerOpts> = Rc::new(DefaultCompilerOpts::new("*replay*"));
+        let opts = if optimize { opts.set_dialect(chialisp::compiler::dialect::AcceptedDialect { stepping: Some(21), strict: false, int_fix: false }).set_optimize(true) } else { opts };
         let mut symbols = HashMap::new();
         let program = match compile_file(&mut a, runner.clone(), opts, &src, &mut symbols) { Ok(p) => Rc::new(p), Err(e) => return Some(format!("did not compile: {}", e.1)) };
         let env = match extract_program_and_env(program.clone()) { Some((_, e)) => e, None => return Some("no environment in emitted program".to_string()) };
@@ -1296,6 +1301,10 @@ pub fn search(name: &str, seed: u64) -> Value {
                 ("(mod (X) (include *standard-cl-21*) (assign yy (+ yy X) (* yy 2)))", "yy|deadlock|ircular", "(mod (X) (include *standard-cl-21*) (assign yy (+ 1 X) (* yy 2)))"),
                 ("(mod (X) (include *standard-cl-21*) (assign (pp . qq) (c X pp) zz (+ X 1) (* zz 2)))", "pp|deadlock|ircular", "(mod (X) (include *standard-cl-21*) (assign (pp . qq) (c X 1) zz (+ X 1) (* zz 2)))"),
                 ("(mod (X) (include *standard-cl-21*) (assign v1 (+ X 1) v1 (+ X 2) (* v1 v1)))", "v1|uplicate|multiple", "(mod (X) (include *standard-cl-21*) (assign v1 (+ X 1) v2 (+ X 2) (* v1 v2)))"),
+                // redefinition under the optimising dialects (tree shaking runs before code generation there)
+                ("(mod (X) (include *standard-cl-23*) (defun f (A) (+ A 1)) (defun f (A) (- A 1)) (f X))", "f", "(mod (X) (include *standard-cl-23*) (defun f (A) (+ A 1)) (defun g (A) (- A 1)) (f X))"),
+                ("(mod (X) (include *standard-cl-24*) (defun f (A) (+ A 1)) (defun-inline f (A) (- A 1)) (f X))", "f", "(mod (X) (include *standard-cl-24*) (defun f (A) (+ A 1)) (defun-inline g (A) (- A 1)) (f X))"),
+                ("(mod (X) (include *standard-cl-23.1*) (defun-inline f (A) (+ A 1)) (defun f (A) (- A 1)) (f X))", "f", "(mod (X) (include *standard-cl-23.1*) (defun-inline f (A) (+ A 1)) (defun g (A) (- A 1)) (f X))"),
                 // inline cycles whose back edge is in argument position (under if / +), lengths 2 and 3
                 ("(mod (X) (include *standard-cl-21*) (defun-inline EVEN (N) (if N (ODD (- N 1)) 1)) (defun-inline ODD (N) (if N (EVEN (- N 1)) ())) (EVEN X))", "EVEN|ODD|recurs", "(mod (X) (include *standard-cl-21*) (defun-inline EVEN (N) (if N (ODD (- N 1)) 1)) (defun ODD (N) (if N (EVEN (- N 1)) ())) (EVEN X))"),
                 ("(mod (X) (include *standard-cl-23*) (defun-inline EVEN (N) (if N (ODD (- N 1)) 1)) (defun-inline ODD (N) (if N (EVEN (- N 1)) ())) (EVEN X))", "EVEN|ODD|recurs", "(mod (X) (include *standard-cl-23*) (defun-inline EVEN (N) (if N (ODD (- N 1)) 1)) (defun ODD (N) (if N (EVEN (- N 1)) ())) (EVEN X))"),
@@ -1303,7 +1312,7 @@ pub fn search(name: &str, seed: u64) -> Value {
                 ("(mod (X) (include *standard-cl-21*) (defun-inline s1 (N) (* 2 (s1 (- N 1)))) (s1 X))", "s1|recurs", "(mod (X) (include *standard-cl-21*) (defun s1 (N) (if N (* 2 (s1 (- N 1))) 1)) (s1 X))"),
             ];
             for (bad, names, good) in cases.iter() { if let Some(v) = chk_scope(bad, names, good) { return v; } }
-            nf("14 ill-scoped programs, each compiled in a child process (unbound name in main / in defun under a strict dialect, duplicate defun, inline+defun of one name, direct and mutual inline recursion with the back edge in head and in argument position (cycles of 1, 2 and 3), cyclic assign incl. self-reference, duplicate assign binding) are rejected with an error naming the culprit, and each repaired twin compiles")
+            nf("17 ill-scoped programs (redefinitions of a reachable function also under cl23 / cl23.1 / cl24), each compiled in a child process (unbound name in main / in defun under a strict dialect, duplicate defun, inline+defun of one name, direct and mutual inline recursion with the back edge in head and in argument position (cycles of 1, 2 and 3), cyclic assign incl. self-reference, duplicate assign binding) are rejected with an error naming the culprit, and each repaired twin compiles")
         }
         "repl" => {
             let cases: Vec<(Vec<&str>, &str)> = vec![
@@ -1395,9 +1404,16 @@ pub fn search(name: &str, seed: u64) -> Value {
                 ("(mod (KIND ITEM) (defun describe (KIND ITEM) (if (= KIND 2) (if (l ITEM) (sha256 (f ITEM) (f (r ITEM)) KIND (* KIND 1000000000000) (+ KIND 1000000000000)) 99) (c KIND (sha256 (f ITEM) (f (r ITEM)) KIND (* KIND 1000000000000) (+ KIND 1000000000000))))) (describe KIND ITEM))", vec!["(2 77)", "(2 (5 6))", "(3 (5 6))"]),
                 ("(mod (A B) (defun pick (A B) (if A (if (l B) (* (f B) (f B) 1000000007 (f B)) 1) (if (l B) (+ 3 (* (f B) (f B) 1000000007 (f B))) 2))) (pick A B))", vec!["(1 9)", "(0 9)", "(1 (4))", "(0 (4))"]),
                 ("(mod (X) (let* ((A (+ X 1)) (B (* A A)) (C (- B A))) (c A (c B C))))", vec!["(3)"]),
+                // applying a quoted quoted value: the data under the inner quote is not code
+                ("(mod (X) (a (q 1 (2 (1 . 7) 1) 5) X))", vec!["((5 7))"]),
+                ("(mod (X) (defun k (E) (a (q 1 (2 (1 . 7) 1) (5 1)) E)) (c X (k X)))", vec!["(9)"]),
+                // boolean casts used as values
+                ("(mod (X) (not (not X)))", vec!["(5)", "(0)", "((1 2))"]),
+                ("(mod (X Y) (defun both (A B) (logior (not (not A)) (* 2 (not (not B))))) (both X Y))", vec!["(5 7)", "(0 (1))", "(3 0)"]),
+                ("(mod (X) (defun flag (A) (if (not (not A)) (+ 10 (not (not A))) (not A))) (flag X))", vec!["(9)", "(0)"]),
             ];
             for (b, argss) in progs.iter() { for at in argss { if skipped(&json!({"program": b, "args": at})) { continue; } if let Some(v) = chk_opt_levels(b, at) { return v; } } }
-            nf("15 programs (incl. quoted data containing (1), repeated expressions under sibling and nested guards that raise when hoisted, let* chains) x argument sets: cl21/cl22/cl23 with -O off and on all agree on the returned value")
+            nf("20 programs (incl. apply of a doubly quoted value, boolean casts (not (not x)) used as values, quoted data containing (1), repeated expressions under sibling and nested guards that raise when hoisted, let* chains) x argument sets: cl21/cl22/cl23 with -O off and on all agree on the returned value")
         }
         "bigint_from_bytes" | "bigint_to_bytes_clvm" | "bigint_to_bytes_unsigned" => {
             for len in 0..14usize { for pat in 0..6u8 { for signed in [false, true] {
@@ -1422,11 +1438,15 @@ pub fn search(name: &str, seed: u64) -> Value {
                 ("(mod (X) (include *standard-cl-21*) (defun dbl (A) (* A 2)) (dbl X))", "dbl", vec![("A", 21)], "42"),
             ];
             for (srcx, pre, b, ex) in calls.iter() { if let Some(v) = chk_symbol_call(srcx, pre, b, ex) { return v; } }
+            // optimising cl21 build: functions whose optimised code is a bare atom (identity, accessor) are still found through their entry
+            let opt_src = "(mod (A B) (include *standard-cl-21*) (defun add1 (X) (+ X 1)) (defun ident (X) X) (defun second (L) (f (r L))) (+ (add1 A) (ident A) (second B)))";
+            for (pre, b, ex) in [("add1", vec![("X", 41i64)], "42"), ("ident", vec![("X", 41)], "41")] { if let Some(v) = chk_symbol_call_opt(opt_src, pre, &b, ex, true) { return v; } }
             nf("symbol entries agree with the emitted program and the source argument lists on 5 programs (incl. two functions with identical code in both orders)")
         }
         "entry_points" => {
             let bodies = ["(mod (X) (defun f (A) (* A 2)) (f (+ X 1)))", "(mod (X Y) (defun-inline g (A B) (+ A B)) (let ((z (g X Y))) (* z z)))", "(mod (X) (defconstant K 7) (if X (+ K X) K))",
-                "(mod (X) (let* ((A (+ X 1)) (B (* A A))) (c A B)))", "(mod (X) (let* ((A (+ X 1)) (B (* A A)) (C (- B A))) (list A B C)))", "(mod (X) (a (q . (+ 2 (q . 1))) (list X)))", "(mod (X) (defun-inline dbl (A) (+ A A)) (let* ((P (dbl X)) (Q (dbl P))) (c P Q)))"];
+                "(mod (X) (let* ((A (+ X 1)) (B (* A A))) (c A B)))", "(mod (X) (let* ((A (+ X 1)) (B (* A A)) (C (- B A))) (list A B C)))", "(mod (X) (a (q . (+ 2 (q . 1))) (list X)))", "(mod (X) (defun-inline dbl (A) (+ A A)) (let* ((P (dbl X)) (Q (dbl P))) (c P Q)))",
+                "(mod (X) (c 0x00 X))", "(mod (X) (list 0 X 0x00 0x0000 -1 0xff))"];
             for d in ["*standard-cl-21*", "*standard-cl-22*", "*standard-cl-23*"] { for b in bodies { for o in [false, true] {
                 let src = with_dialect(b, d);
                 if let Some(v) = chk_entry_points(&src, o) { return v; }
@@ -1447,7 +1467,7 @@ pub fn search(name: &str, seed: u64) -> Value {
                 }
                 let _ = std::fs::remove_dir_all(&base);
             }
-            nf("library entry and tool path emit identical bytes for 7 programs (incl. let* chains and quoted apply, which the classic post-optimiser rewrites) x cl21/cl22/cl23 x optimize on/off, and for 4 search-path lists (incl. a repeated directory) x cl21/cl23")
+            nf("library entry and tool path emit identical bytes for 9 programs (incl. let* chains and quoted apply, which the classic post-optimiser rewrites, and zero-byte / zero-padded constants, which depend on the integer-conversion mode) x cl21/cl22/cl23 x optimize on/off, and for 4 search-path lists (incl. a repeated directory) x cl21/cl23")
         }
         "include_files" | "process_include" | "process_pp_form" | "process_embed" => {
             let mut n = 0;
@@ -1555,10 +1575,10 @@ pub fn search(name: &str, seed: u64) -> Value {
             nf("conversion round trip and the three tree hashes agree on the enumerated values in both integer modes")
         }
         "path_optimizer" | "sub_args" | "path_from_args" | "optimize_sexp" | "path_number_from_u8" | "new" | "add" | "first" | "rest" | "as_path" | "seems_constant" => {
-            for p in optimizer_programs() { for e in 0..4u8 {
+            for p in optimizer_programs() { for e in 0..6u8 {
                 if let Some(mut v) = optimizer_vs_consensus(&p, e) { v["input"] = json!({"program": p, "env": e}); return v; }
             } }
-            nf("optimize_sexp preserves the value of the enumerated programs x 4 environments (incl. a full tree of depth 17)")
+            nf("optimize_sexp preserves the value of the enumerated programs (path atoms of 1-4 and 7-9 bytes) x 6 environments (incl. a full tree of depth 17 and combs of depth 80)")
         }
         "choose_path" | "flatten_signed_int" | "truthy" | "atom_value" | "run_step" | "combine" | "eval_args" | "generate_argument_refs" => {
             for p in stepper_programs() { for e in 0..5u8 {
